@@ -26,6 +26,7 @@ type evalEnv struct {
 	pkg   *types.Package
 	inOld bool
 	iters map[string]*iterInfo // loop ordinal name -> iterator (for visited())
+	gvars map[string]string    // ghost locals of the enclosing function: name -> sort
 }
 
 type evalErr struct{ msg string }
@@ -336,6 +337,12 @@ func (env *evalEnv) evalIdent(name string) cval {
 	if v, ok := env.vars[name]; ok {
 		return v
 	}
+	if env.gvars != nil {
+		if srt, ok := env.gvars[name]; ok {
+			rs, rt := env.resolveType(srt)
+			return cval{t: env.heapGet("gv."+name, rs), sort: rs, typ: rt}
+		}
+	}
 	// zero-arg ghost
 	if g, ok := fx.P.Specs.Ghosts[name]; ok && len(g.Args) == 0 {
 		srt, typ := env.resolveType(g.Ret)
@@ -446,8 +453,35 @@ func findField(st *types.Struct, name string) (int, *types.Var) {
 	return -1, nil
 }
 
+// heapFieldKinds remembers, per field heap variable, whether its elements are
+// references ("ref"), slices ("slice") or interfaces ("iface"): the
+// well-formed-heap assumption (every stored reference denotes an object that
+// already exists) is stated for those.
+var heapFieldKinds = map[string]string{}
+
+func refKindOf(t types.Type) string {
+	switch t.Underlying().(type) {
+	case *types.Pointer, *types.Map, *types.Chan, *types.Signature:
+		return "ref"
+	case *types.Slice:
+		return "slice"
+	case *types.Interface:
+		return "iface"
+	}
+	return ""
+}
+
 func heapNameForField(structType types.Type, field string) string {
-	return "H." + sanitize(typeName(structType)) + "." + field
+	n := "H." + sanitize(typeName(structType)) + "." + field
+	if _, ok := heapFieldKinds[n]; !ok {
+		heapFieldKinds[n] = ""
+		if st, ok := structType.Underlying().(*types.Struct); ok {
+			if _, f := findField(st, field); f != nil {
+				heapFieldKinds[n] = refKindOf(f.Type())
+			}
+		}
+	}
+	return n
 }
 
 func (env *evalEnv) unifyNil(a, b cval) (cval, cval) {
@@ -564,6 +598,12 @@ func (env *evalEnv) evalCall(x *ECall) cval {
 			return cval{t: "(<= " + v.t + " " + fx.entryAlloc + ")", sort: "Bool"}
 		}
 		return cval{t: "(<= " + v.t + " " + env.st.alloc + ")", sort: "Bool"}
+	case "store":
+		argn(3)
+		a := env.eval(x.Args[0])
+		i := env.eval(x.Args[1])
+		v := env.eval(x.Args[2])
+		return cval{t: "(store " + a.t + " " + i.t + " " + v.t + ")", sort: a.sort}
 	case "atlock":
 		// atlock(e): e in the state right after the most recent Lock of a monitor
 		argn(1)
@@ -639,6 +679,10 @@ func (env *evalEnv) evalCall(x *ECall) cval {
 		argn(1)
 		v := env.eval(x.Args[0])
 		return cval{t: "(ityp " + v.t + ")", sort: "Int"}
+	case "ival":
+		argn(1)
+		v := env.eval(x.Args[0])
+		return cval{t: "(ival " + v.t + ")", sort: "Int"}
 	case "visited":
 		// visited(loopName, key)
 		argn(2)
